@@ -1224,3 +1224,18 @@ Proof.
   exists 0x4000000000000000, 0x7ff8000000000000, 0x3eb0c6f7a0b5ed8d.
   split; [discriminate|]. split; [vm_compute; reflexivity|]. split; vm_compute; reflexivity.
 Qed.
+
+(* the [depth] argument as the C code carries it: `++depth` at the call site inside the loop over the children, so the
+   k-th copied (not kept-as-link) child is entered with depth + k, and its own children count on from there; a child
+   kept as a link does not count.  Only depth <> 0 matters to the current code; a guard on the value of depth would be
+   predicted by this transcription.  (Here [go] / [go_link] just record the depth they are called with.) *)
+Lemma depth_counts_siblings :
+  let rec_depth := fun (k : node) (c : node) (d : Z) => Ok (Node (node_name c) [] [] [d] [] []) in
+  kids_loop rec_depth (fun _ _ c d => Ok (Node (node_name c) [] [] [d] [] [])) true
+    [Node [97] [] s_MT [] [] []; LinkNode [108] [] [47;97]; Node [98] [] s_MT [] [] []; LinkNode [109] [66] [47;88];
+     Node [99] [] s_MT [] [] []]
+    (Node [] [] s_MT [] [] []) 5 =
+  Ok (Node [] [] s_MT [] []
+        [Node [97] [] [] [6] [] []; LinkNode [108] [] [47;97]; Node [98] [] [] [7] [] []; Node [109] [] [] [8] [] [];
+         Node [99] [] [] [9] [] []]).
+Proof. vm_compute. reflexivity. Qed.
